@@ -26,6 +26,7 @@ SPECS = {
     'C08': [(PS, ['calc_pk_from_deltak', 'get_raw_power', 'project_3d_to_poles', 'pk_to_xi'])],    # the public callers of the binning kernels
     'C09': [(GH, ['gen_gals', 'wrap', 'gen_gal_cat'])],
     'C10': [(GH, ['fast_concatenate', 'gen_gals', 'gen_gal_cat']), ('abacusnbody/hod/abacus_hod.py', ['_searchsorted_parallel', 'AbacusHOD.run_hod'])],
+    'C11': [('abacusnbody/hod/menv.py', ['do_Menv_from_tree', 'msum_in_batches', 'msum_batch', 'query_inds', 'msum_core', 'concat_to_arr'])],
     'C12': [('abacusnbody/hod/abacus_hod.py', ['_searchsorted_parallel'])],
     'C13': [(PS, ['calc_power', 'get_field', 'get_field_fft', 'get_interlaced_field_fft', 'shift_field_fft',
                   'get_W_compensated', 'normalize_field', 'get_raw_power', 'calc_pk_from_deltak', '_normalize',
